@@ -685,3 +685,102 @@ Definition rebuilt (kd : kind) (k : val) : Prop :=
 (* entries of a source object that the copy algorithm does not carry over entry by entry *)
 Definition not_carried (kd : kind) (k : val) : Prop :=
   (is_annk kd = true /\ k = NM_ANN) \/ (kd = KAnnSet /\ k <> NM_TARGET).
+
+(* ---- additional shape conditions used by the content theorem (checked on every dumped case) ------ *)
+
+Fixpoint nodup_keys (b : list (val * val)) : bool :=
+  match b with
+  | [] => true
+  | (k, _) :: r => negb (existsb (fun e => val_eqb k (fst e)) r) && nodup_keys r
+  end.
+
+(* the i-th entry of a list / tuple has key i *)
+Definition list_keys_ok (b : list (val * val)) : bool :=
+  forallbi (fun i e => val_eqb (fst e) (pidx i)) 0 b.
+
+(* annotation sets owned by annotable objects (x._annotations) *)
+Definition owned_list (h : heap) : list Z :=
+  flat_map (fun ob => if is_annk (okind ob)
+                      then match bget (obody ob) NM_ANN with Some (R sx) => [sx] | _ => [] end
+                      else []) h.
+
+Definition is_owned_ref (ow : list Z) (v : val) : bool :=
+  match v with R a => memz a ow | P _ => false end.
+
+(* an owned annotation set is referred to only by its owner's `_annotations` *)
+Definition noalias_ok (h : heap) : bool :=
+  let ow := owned_list h in
+  forallb (fun ob => forallb (fun e => (is_annk (okind ob) && val_eqb (fst e) NM_ANN)
+                                       || (negb (is_owned_ref ow (fst e)) && negb (is_owned_ref ow (snd e))))
+                             (obody ob)) h.
+
+(* TaxonNamespace._taxa is a list *)
+Definition taxa_ok (h : heap) : bool :=
+  forallb (fun ob => match okind ob with
+                     | KNamespace =>
+                       match bget (obody ob) NM_TAXA with
+                       | Some (R lt) => match hget h lt with
+                                        | Some lo => kind_eqb (okind lo) KList && Z.eqb (ocls lo) CLS_LIST
+                                        | None => false
+                                        end
+                       | _ => true
+                       end
+                     | _ => true
+                     end) h.
+
+(* the value of an annotation bound to its owner is exactly the pair (owner, name), a tuple *)
+Definition bound_pair_ok (h : heap) (x : Z) (a : Z) : bool :=
+  match hget h a with
+  | Some ao => match bget (obody ao) NM_VALUE with
+               | Some (R t) => match hget h t with
+                               | Some tob =>
+                                 match okind tob with
+                                 | KTuple | KList =>
+                                   match values (obody tob) with
+                                   | owner :: _ => negb (val_eqb owner (R x))
+                                                   || (kind_eqb (okind tob) KTuple && Z.eqb (ocls tob) CLS_TUPLE
+                                                       && Nat.eqb (length (obody tob)) 2)
+                                   | [] => true
+                                   end
+                                 | _ => true
+                                 end
+                               | None => true
+                               end
+               | _ => true
+               end
+  | None => true
+  end.
+
+Definition bound_pairs_ok (h : heap) : bool :=
+  forallbi (fun x ob => forallb (bound_pair_ok h x) (refs_of (ann_items h ob))) 0 h.
+
+(* the `_item_list` of an annotation set (owned or not) is a list *)
+Definition ilist_kind_ok (h : heap) (sxo : obj) : bool :=
+  match bget (obody sxo) NM_ILIST with
+  | Some (R lx) => match hget h lx with Some l => kind_eqb (okind l) KList | None => true end
+  | _ => true
+  end.
+
+Definition ilists_ok (h : heap) : bool :=
+  forallb (fun ob =>
+     (if is_annk (okind ob)
+      then match bget (obody ob) NM_ANN with
+           | Some (R sx) => match hget h sx with Some sxo => ilist_kind_ok h sxo | None => true end
+           | _ => true
+           end
+      else true)
+     && (match okind ob with KAnnSet => ilist_kind_ok h ob | _ => true end)) h.
+
+Definition wf_heap2 (h : heap) : bool :=
+  forallb (fun ob => nodup_keys (obody ob)) h
+  && forallb (fun ob => match okind ob with KList | KTuple => list_keys_ok (obody ob) | _ => true end) h
+  && noalias_ok h && taxa_ok h && bound_pairs_ok h && ilists_ok h.
+
+(* the check of the correspondence run: the model agrees with the implementation (case_ok) and the
+   dumped heap satisfies the hypotheses of the content theorem *)
+Definition case_ok2 (c : case) : bool :=
+  case_ok c &&
+  match c_expect c with
+  | ESkip _ => true
+  | _ => wf_heap2 (c_heap c) && negb (memz (c_root c) (owned_list (c_heap c)))
+  end.
